@@ -103,6 +103,13 @@ class Run(object):
         and the counterexample if an invariant failed) are replayed into the real conductor and
         validated like explored trees; digest mismatches are divergences."""
         from . import mc
+        if len(defs) > 40:
+            # large families are model-checked in chunks (TLC's disk state queue fails on these states)
+            out = None
+            for k in range(0, len(defs), 40):
+                out = self.add_mc(defs[k:k + 40], own, max_pause, max_cancel, max_steps, known, replay, lang, timeout,
+                                  bound_check, max_rerun)
+            return out
         if known is None:
             known = sorted({k["signature"] for k in load_known_findings() if k.get("status", "open") == "open"})
         defs = [dict(d, name="m%d_%s" % (i, d["name"])) for i, d in enumerate(defs)]
